@@ -14,6 +14,8 @@ coefficients, exported chain and module set.
 import itertools, json
 from .common import *
 from . import sn_gen as G
+from . import c03_gen
+from .c03_gen import regenerate      # setup.sh regenerates Gen/SnExportGen.v (+ SnCostGen / SamplerGen) through this name
 
 TYPE_OF = {'conv1': 'Conv2d', 'conv3': 'Conv2d', 'conv3nb': 'Conv2d', 'dw': 'Conv2d', 'relu': 'ReLU', 'id': 'Identity',
            'maxpool': 'MaxPool2d', 'bn': 'BatchNorm2d', 'pool2': 'MaxPool2d', 'flatten': 'Flatten', 'linear': 'Linear'}
@@ -304,7 +306,9 @@ def strip(d):
 
 def run(ctx):
     torch = setup_torch()
+    gen_rejected = c03_gen.regenerate(ctx)
     built = ctx.build()
+    ctx.extra['generated_model'] = c03_gen.status(gen_rejected, built)
     ctx.rule = ('networks from vlib/sn_gen.py: 1..3 SuperNetModules x 2..12 branches (single layer / nn.Sequential / user block ending in a module / user block ending in '
                 'F.relu, +, neg / user block with functional ops and method calls (relu, +, neg, *2, .clamp, .abs, .flatten) before / between its layers and optionally a residual around the branch / Identity), blocks invoked once or twice, fixed layers and functional ops before/between/after, optional Flatten+Linear tail; '
                 'coefficients = distinct multiples of 1/16 with the wanted winner on top, 12% with a tie for the maximum, plus the uniform initial ones; hard selection set through '
@@ -417,6 +421,10 @@ def run(ctx):
                 alphas = [(b, [Fraction(v) for v in a]) for b, a in enumerate(st['alphas'])]
                 exprs.append('run_gexport %s net_%d' % (coq(alphas), ni))
             vals = ctx.coq_eval_sharded('cases', ['Plinio.Model.SuperNet'], defs, exprs, shard=120)
+            # the model GENERATED from the SuperNet forward / export source on this run, on the same cases
+            gvals = ctx.coq_eval_sharded('gcases', c03_gen.IMPORTS, defs, c03_gen.gen_exprs(exprs), shard=120)
+            ctx.corr += 6 * len(gvals)
+            mism += c03_gen.differences(flat, gvals)
             built_nets = {}
             for (ni, d, st, o), v in zip(flat, vals):
                 wins, thetas, enet, mods = v
@@ -464,7 +472,9 @@ def run(ctx):
     ctx.extra['model_impl_mismatches'] = len(mism)
 
     if not ctx.violations:   # a printed KNOWN-FINDING must not hide a broken proof / model / correspondence
-        if not built:
+        if c03_gen.report(ctx, gen_rejected, built):
+            pass
+        elif not built:
             ctx.violation('proof-broken', {'theorems': [o[0] for o in ctx.obligations if not o[1]], 'log': getattr(ctx, 'broken_log', '')[-3000:]}, 'Props/C03.v no longer checks', no_input=True)
         elif not model_ok:
             ctx.violation('model-eval-broken', {'notes': ctx.notes}, 'the model could not be evaluated', no_input=True)
